@@ -346,3 +346,13 @@ def strftime_strptime_round_trip(p, parser, fmt):
     assert q == p
     assert q._time_zone._hours == p._time_zone._hours
     assert q._time_zone._minutes == p._time_zone._minutes
+
+
+def dump_with_literal_zone(p, dumper, parser, fmt, zh, zm):
+    # C06: dumping with a format that spells out a literal zone re-expresses p in that zone
+    s = dumper.dump(p, fmt)
+    q = parser.parse(s)
+    assert q == p          # equal hashes follow by C02's lemma equal_implies_equal_hash
+    assert q._time_zone._hours == zh and q._time_zone._minutes == zm
+    assert valid_date(q) and time_normal24(q)
+    assert is_cal(q) == is_cal(p) and is_ord(q) == is_ord(p) and is_week(q) == is_week(p)
